@@ -190,7 +190,13 @@ static void c05_read_history (int type, long start, const int *ks, int depth, in
 	{	SF_DITHER_INFO di ; memset (&di, 0, sizeof (di)) ; di.type = SFD_WHITE ; di.level = 1.0 ;
 		INLIB (sf_command (sf, SFC_SET_DITHER_ON_READ, &di, sizeof (di))) ;
 		}
-	if (! goto_start (sf, start)) { vl_note ("start position %ld not reachable", start) ; INLIB (sf_close (sf)) ; vl_end (0, 2) ; return ; }
+	if (var == 1 && root.seekable && start > 0)
+	{	/* a handle that has been used: everything is read first (the decoder has seen its last block), then the start position is sought */
+		void *all = malloc ((root.F + 4) * root.ch * 2 + 16) ; sf_count_t r ; vl_read (sf, T_SHORT, 1, all, root.F + 3) ; free (all) ;
+		INLIB (r = sf_seek (sf, start, SEEK_SET)) ;
+		if (r != start) { INLIB (sf_close (sf)) ; sf = root_open (&root) ; if (! sf || ! goto_start (sf, start)) { if (sf) INLIB (sf_close (sf)) ; vl_end (0, 2) ; return ; } }
+		}
+	else if (! goto_start (sf, start)) { vl_note ("start position %ld not reachable", start) ; INLIB (sf_close (sf)) ; vl_end (0, 2) ; return ; }
 	for (int i = 0 ; i < depth ; i++)
 	{	long k = k_value (ks [i], type, p), rf = checked_read (sf, type, (var + i) & 1, p, k, "C05") ;
 		if (rf < 0) break ;
